@@ -16,7 +16,13 @@ What it does
 * enforces `Content-Length` against the received body (400 `IncompleteBody`);
 * ListObjectsV2: keys in UTF-8 binary order, at most `min(page_size, max-keys)` per page, `IsTruncated`,
   opaque `NextContinuationToken`s that contain `+`, `/` and `=`;
-* DELETE of a missing key answers 204; GET/HEAD of a missing key 404 `NoSuchKey`.
+* DELETE of a missing key answers 204; GET/HEAD of a missing key 404 `NoSuchKey`;
+* optional server clock (`clock` = callable returning the service's current UTC time as a naive `datetime`): the service then
+  also enforces what SigV4 says about time — `x-amz-date` must be a well-formed ISO-8601 basic timestamp, its date must be the
+  credential-scope date (checked with or without a clock), and it must lie within `max_skew` seconds (S3: 15 minutes) of the
+  service's clock, else 403 `RequestTimeTooSkewed`.  The signing key is always re-derived from the credential-scope date, so a
+  client that signs with another day's key gets 403 `SignatureDoesNotMatch`.  Without a clock nothing about "now" is checked
+  (the behaviour every earlier user of this fake relies on).
 
 Fault hook: `fault(request) -> None | httpx.Response | BaseException` is consulted first on every request
 (`None` = serve normally, a response is returned as is, an exception instance is raised from the transport).
@@ -26,6 +32,7 @@ Every request is appended to `fake.log` as a dict (method, key, op, status).
 import base64
 import hashlib
 import hmac
+from datetime import datetime
 from urllib.parse import quote, unquote, unquote_plus
 from xml.sax.saxutils import escape
 
@@ -61,11 +68,15 @@ def cut_body(data, k, status=200, headers=None):
 
 
 class FakeS3:
-    def __init__(self, bucket, key_id, access_key, region, host, page_size=1000, fault=None, verify_sig=True):
+    def __init__(self, bucket, key_id, access_key, region, host, page_size=1000, fault=None, verify_sig=True, clock=None, max_skew=900):
         self.bucket, self.key_id, self.access_key, self.region, self.host = bucket, key_id, access_key, region, host
         self.page_size = page_size
         self.fault = fault
         self.verify_sig = verify_sig
+        self.clock = clock          # None, or () -> naive UTC datetime: the service's own clock
+        self.max_skew = max_skew    # seconds x-amz-date may differ from the service's clock
+        self.time_failures = []    # explanations of requests rejected for their timestamp
+        self.scope_dates = []      # credential-scope date of every accepted request, in order (a run that crossed a date change shows ≥ 2 values)
         self.objects = {}          # key (str) -> bytes
         self.log = []
         self.sig_failures = []     # explanations of rejected signatures
@@ -124,6 +135,14 @@ class FakeS3:
         amzdate = request.headers.get('x-amz-date')
         if not amzdate or not amzdate.startswith(date):
             return 'x-amz-date missing or not matching the credential scope date'
+        if self.clock is not None:
+            try:
+                sent = datetime.strptime(amzdate, '%Y%m%dT%H%M%SZ')
+            except ValueError:
+                return 'x-amz-date is not an ISO-8601 basic timestamp: %r' % amzdate
+            now = self.clock()
+            if abs((sent - now).total_seconds()) > self.max_skew:
+                return 'time-skew: x-amz-date %s, service clock %s' % (amzdate, now.strftime('%Y%m%dT%H%M%SZ'))
         signed_list = signed.split(';')
         if signed_list != sorted(signed_list):
             return 'SignedHeaders not sorted'
@@ -174,10 +193,16 @@ class FakeS3:
             if why == 'payload-hash':
                 entry['op'] = 'bad-payload-hash'
                 return self._xml_error(400, 'XAmzContentSHA256Mismatch', 'The provided x-amz-content-sha256 header does not match what was computed.'), entry
+            if why is not None and why.startswith('time-skew'):
+                entry['op'] = 'time-skewed'
+                self.time_failures.append({'method': request.method, 'raw_path': raw_path, 'why': why})
+                return self._xml_error(403, 'RequestTimeTooSkewed', 'The difference between the request time and the current time is too large.'), entry
             if why is not None:
                 entry['op'] = 'bad-signature'
                 self.sig_failures.append({'method': request.method, 'raw_path': raw_path, 'raw_query': raw_query, 'why': why})
                 return self._xml_error(403, 'SignatureDoesNotMatch', why.split('\n')[0]), entry
+            entry['scope_date'] = (request.headers.get('authorization', '').partition('Credential=')[2].split('/') + ['', ''])[1]
+            self.scope_dates.append(entry['scope_date'])
         cl = request.headers.get('content-length')
         if cl is not None and request.method in ('PUT', 'POST'):
             try:
